@@ -45,6 +45,7 @@ RULE = (
     "identical (thorough: every case, 3 seeds; quick: a sample, 2 seeds).  "
     "non-trivial = >= 2 ranks, >= 2 messages and >= 2 parts on some rank; "
     "distinct by program JSON")
+RULE += '  Round-4 addition: for the first cases of every shard (quick 4, thorough 40) and a corpus case with string tags, every rank is run as an interpreter OF ITS OWN with its own PYTHONHASHSEED (collectives through pickles in files, pvf.props.c09.FileComm): find/verify/number must succeed and give the parts, names and tag numbers of the one-interpreter simulation.'
 ASSUMPTIONS = [
     "each rank's graph is deduplicated first (see C08)",
     "simulated MPI collectives pickle/unpickle their arguments and reduce in "
@@ -65,9 +66,9 @@ HASH_SEEDS = (0, 1, 987654321)
 def plan(tier: str) -> dict:
     if tier == "thorough":
         return {"shards": 16, "examples": 1500, "seed_cases": 10 ** 9,
-                "hash_seeds": HASH_SEEDS}
+                "hash_seeds": HASH_SEEDS, "rank_process_cases": 40}
     return {"shards": 16, "examples": 150, "seed_cases": 16,
-            "hash_seeds": HASH_SEEDS[:2]}
+            "hash_seeds": HASH_SEEDS[:2], "rank_process_cases": 4}
 
 
 # {{{ well-formedness of one rank's partition
@@ -517,6 +518,174 @@ def _first_diff(a, c, path="") -> str:
 # }}}
 
 
+# {{{ one interpreter per rank (each with its own PYTHONHASHSEED)
+
+class PeerAborted(Exception):
+    pass
+
+
+class FileComm:
+    """The communicator of ONE rank living in its own interpreter: the
+    pickle-based collectives the partitioner uses (allreduce with a user
+    operation, bcast, gather, barrier), carried out through files in a
+    directory the ranks share.  What a rank receives has been pickled by an
+    interpreter with another hash seed - as under a real MPI launch."""
+
+    def __init__(self, d: str, rank: int, size: int, timeout: float = 240.0):
+        self.d, self._rank, self._size = d, rank, size
+        self.k = 0
+        self.timeout = timeout
+
+    rank = property(lambda self: self._rank)
+    size = property(lambda self: self._size)
+
+    def Get_rank(self):
+        return self._rank
+
+    def Get_size(self):
+        return self._size
+
+    def _exchange(self, obj):
+        import pickle
+        import time
+        k = self.k
+        self.k += 1
+        mine = os.path.join(self.d, f"c{k}.r{self._rank}")
+        with open(mine + ".tmp", "wb") as f:
+            pickle.dump(obj, f)
+        os.rename(mine + ".tmp", mine)
+        t0 = time.monotonic()
+        paths = [os.path.join(self.d, f"c{k}.r{j}") for j in range(self._size)]
+        while not all(os.path.exists(p) for p in paths):
+            if os.path.exists(os.path.join(self.d, "abort")):
+                raise PeerAborted
+            if time.monotonic() - t0 > self.timeout:
+                raise TimeoutError(f"collective {k}")
+            time.sleep(0.002)
+        res = []
+        for p in paths:
+            with open(p, "rb") as f:
+                res.append(pickle.load(f))
+        return res
+
+    def barrier(self):
+        self._exchange(None)
+
+    def bcast(self, obj=None, root: int = 0):
+        return self._exchange(obj)[root]
+
+    def gather(self, sendobj, root: int = 0):
+        allv = self._exchange(sendobj)
+        return allv if self._rank == root else None
+
+    def allreduce(self, sendobj, op=None):
+        allv = self._exchange(sendobj)
+        acc = allv[0]
+        for x in allv[1:]:
+            acc = op(acc, x)
+        return acc
+
+
+def _rank_child_main(path_in: str, d: str, rank: int, size: int) -> int:
+    import pytato as pt
+    with open(path_in) as f:
+        case = json.load(f)
+    out: dict = {}
+    stage = "build"
+    try:
+        distsim.install()
+        with warnings.catch_warnings():
+            warnings.simplefilter("ignore")
+            builds = distgen.build_case(case)
+            comm = FileComm(d, rank, size)
+            stage = "find"
+            part = pt.find_distributed_partition(comm, builds[rank].outputs)
+            stage = "verify"
+            pt.verify_distributed_partition(comm, part)
+            stage = "number"
+            numbered, next_tag = pt.number_distributed_tags(
+                comm, part, base_tag=distsim.BASE_TAG)
+            out = {"summary": distsim.partition_summary(part, numbered),
+                   "next_tag": next_tag}
+    except PeerAborted:
+        out = {"peer_aborted": stage}
+    except TimeoutError as e:
+        out = {"timeout": f"{stage}: {e}"}
+    except Exception as e:  # noqa: BLE001
+        with open(os.path.join(d, "abort"), "w") as f:
+            f.write(str(rank))
+        out = {"error": f"{stage}:{type(e).__name__}",
+               "detail": str(e)[:300]}
+    with open(os.path.join(d, f"out{rank}.json"), "w") as f:
+        json.dump(out, f, sort_keys=True)
+    return 0
+
+
+def run_ranks_in_processes(case, hash_seeds=(101, 202, 303, 404, 505, 606)):
+    """-> list (per rank) of what that rank's interpreter reports"""
+    from pvf.runner import HarnessError
+    n = case["nranks"] if "nranks" in case else len(
+        distgen.build_case(case))
+    d = tempfile.mkdtemp(prefix="pvf-c09r-")
+    try:
+        pin = os.path.join(d, "case.json")
+        with open(pin, "w") as f:
+            json.dump(case, f)
+        root = os.path.dirname(os.path.dirname(os.path.dirname(
+            os.path.abspath(__file__))))
+        procs = []
+        for r in range(n):
+            env = dict(os.environ)
+            env["PYTHONHASHSEED"] = str(hash_seeds[r % len(hash_seeds)])
+            env["PYTHONPATH"] = root + os.pathsep + env.get("PYTHONPATH", "")
+            procs.append(subprocess.Popen(
+                [sys.executable, "-m", "pvf.props.c09", "--rank-child", pin, d,
+                 str(r), str(n)], env=env, stdout=subprocess.PIPE,
+                stderr=subprocess.PIPE))
+        res = []
+        for r, p in enumerate(procs):
+            _, err = p.communicate()
+            if p.returncode != 0:
+                raise HarnessError(f"C09 rank child {r} failed: "
+                                   f"{err.decode()[-600:]}")
+            with open(os.path.join(d, f"out{r}.json")) as f:
+                res.append(json.load(f))
+        return res
+    finally:
+        import shutil
+        shutil.rmtree(d, ignore_errors=True)
+
+
+def ranks_in_processes_oracle(case) -> Failure | None:
+    """a program the in-process simulation partitions, verifies and numbers
+    must go through the same way - with the same parts, names and tag
+    numbers - when every rank is an interpreter of its own"""
+    ref = summarize_case(case)
+    if "ranks" not in ref:
+        return None
+    got = run_ranks_in_processes(case)
+    if any("timeout" in g for g in got):
+        return None         # inconclusive (never a violation)
+    for r, g in enumerate(got):
+        if "error" in g:
+            return Failure("fails-across-interpreters",
+                           f"rank {r} ({g['error']}: {g.get('detail', '')}) "
+                           "fails when every rank is a process with its own "
+                           "PYTHONHASHSEED; with all ranks in one interpreter "
+                           "the program is partitioned, verified and numbered",
+                           "ranks-in-processes|" + g["error"])
+    for r, g in enumerate(got):
+        if "summary" in g and (g["summary"] != ref["ranks"][r]
+                               or g["next_tag"] != ref["next_tag"][r]):
+            return Failure("differs-across-interpreters",
+                           f"rank {r}: " + _first_diff(ref["ranks"][r],
+                                                       g["summary"]),
+                           "ranks-in-processes")
+    return None
+
+# }}}
+
+
 def run_shard(shard: int, nshards: int, seed: int, tier: str) -> ShardResult:
     pl = plan(tier)
     res = ShardResult()
@@ -552,12 +721,21 @@ def run_shard(shard: int, nshards: int, seed: int, tier: str) -> ShardResult:
         res.count("hash_seed_runs", len(for_children) * len(pl["hash_seeds"]))
         for f, case in compare_children(for_children, out):
             res.fail(f, dict(case, hash_seeds=list(pl["hash_seeds"])))
+        for case in for_children[:pl["rank_process_cases"]]:
+            f = ranks_in_processes_oracle(case)
+            res.evaluations += 1
+            res.count("ranks_in_processes_cases")
+            if f is not None:
+                res.fail(f, dict(case, rank_processes=True))
     return res
 
 
 def replay(case) -> Failure | None:
     seeds = case.get("hash_seeds")
-    base = {k: v for k, v in case.items() if k != "hash_seeds"}
+    base = {k: v for k, v in case.items()
+            if k not in ("hash_seeds", "rank_processes")}
+    if case.get("rank_processes"):
+        return ranks_in_processes_oracle(base)
     fails, _ = case_oracle(base)
     if fails:
         want = case.get("_want")
@@ -575,7 +753,8 @@ def replay(case) -> Failure | None:
 
 def minimize(case, fj):
     key = fj["kind"] + "|" + fj.get("where", "")
-    if fj["kind"] == "hash-seed-dependence":
+    if fj["kind"] in ("hash-seed-dependence", "fails-across-interpreters",
+                      "differs-across-interpreters"):
         return case, fj
 
     def still(c):
@@ -595,4 +774,7 @@ KNOWN_PREDICATES = dict(c08.KNOWN_PREDICATES)
 if __name__ == "__main__":
     if len(sys.argv) == 4 and sys.argv[1] == "--child":
         sys.exit(_child_main(sys.argv[2], sys.argv[3]))
+    if len(sys.argv) == 6 and sys.argv[1] == "--rank-child":
+        sys.exit(_rank_child_main(sys.argv[2], sys.argv[3], int(sys.argv[4]),
+                                  int(sys.argv[5])))
     sys.exit(2)
